@@ -334,7 +334,7 @@ STATS_CONFIGS = [
 def stats_cases(ctx, rng):
     ncand = 3 if ctx.quick else 6
     det = [gen_stats_case(rng, cfg=cfg) for cfg in STATS_CONFIGS for _ in range(ncand)]
-    rnd = [gen_stats_case(rng) for _ in range(10 if ctx.quick else 240)]
+    rnd = [gen_stats_case(rng) for _ in range(10 if ctx.quick else 200)]
     return det, rnd
 
 
@@ -449,7 +449,7 @@ def chi2_records(ctx, rng, nid):
 def history_candidates(ctx, rng):
     """per setup: candidate pairs of two-parameter models of different curvature with the same parameters / sample sizes / grid"""
     setups = []
-    for s in range(1 if ctx.quick else 6):
+    for s in range(1 if ctx.quick else 5):
         cand = []
         for _ in range(6):
             n = rng.randint(6, 9)
@@ -737,11 +737,15 @@ def run(ctx):
     mcs = [('GodambeMC', 'GodambeMC_%s_%s.cfg' % (m, ctx.tier)) for m in ('stencil', 'stats', 'cache')]
     return common.pipeline(
         ctx, mcs, 'Trace_Godambe', recs, key_of=key_of, what_of=what_of, nontrivial_of=nontrivial, mutator=mutate, extra_cov=extra,
-        rule='get_hess/get_grad on random quadratic / linear functions in 1-5 parameters (coordinates zero, tiny, near the 1e-6/eps '
-             'threshold, negative, ordinary; eps log-uniform in [1e-4,1e-1]); FIM/GIM/LRT/Wald/score on random linear Poisson models '
-             '(1-3 parameters, with and without theta augmentation, 3-6 bootstraps, optional theta adjustments), each also with a permuted '
-             'bootstrap list; sum_chi2_ppf for scalar and array inputs and 6 weight vectors; every call word of length <= 2 (3 thorough) '
-             'over {A,B}x{FIM,LRT}x{named,transient} plus random longer words on the shared cache; distinct by the tuples of nontrivial()',
+        rule='every tier draws on purpose: get_hess/get_grad for 1-5 parameters x quadratic/linear, every parameter class (0, tiny, either '
+             'side of 1e-6/eps, negative, ordinary, large) with one parameter at both end points eps = 1e-4 and 1e-1, all-zero / all-tiny / '
+             'all-negative vectors, parameter vector as list / tuple / float array / int list / int array, a constant passed through args=; '
+             'ten named linear-Poisson configurations (single bootstrap, eps end points, theta augmentation, theta adjustments, nested first / '
+             'last / all, Wald full_params as nested values or entire list, bootstraps as plain arrays, nested indices as array, scalar-return '
+             'code paths), each with a reversed or rotated bootstrap list; sum_chi2_ppf for float / numpy float / int / numpy int / list / tuple / '
+             '1-D / 2-D / integer / negative arrays and weights as tuple / list / array; every call word of length <= 2 (3 thorough) over '
+             '{A,B}x{FIM,LRT}x{named,transient} and fixed words with GIM / Wald / score.  Plus random cases of each kind (more in thorough); '
+             'distinct by the tuples of nontrivial()',
         assumptions=['stencil records: |observed - stencil(exact f)| <= 1e-13 * |f|_terms / (h_i h_j)  (float evaluation of f at the stencil points)',
                      'closed-form records: parameters positive and central differences (p*eps >= 1e-6); truncation bound '
                      '2 eps^2/(1-eps)^4 * (positive part of the information), eps^2/(3(1-eps)^3) * (positive part of the score), plus '
